@@ -20,6 +20,7 @@ pub mod c17;
 pub mod c18;
 pub mod c19;
 pub mod difflab;
+pub mod c20;
 pub mod kit;
 pub mod langkit;
 pub mod rules;
@@ -53,6 +54,7 @@ pub fn lookup(id: &str) -> Option<Prop> {
         "C17" => Prop { isolate: false, level: "model_checking", run: c17::run, replay: c17::replay },
         "C18" => Prop { isolate: false, level: "model_checking", run: c18::run, replay: c18::replay },
         "C19" => Prop { isolate: false, level: "fault_enumeration", run: c19::run, replay: c19::replay },
+        "C20" => Prop { isolate: false, level: "model_checking", run: c20::run, replay: c20::replay },
         _ => return None,
     })
 }
